@@ -88,8 +88,8 @@ theorem installVar_step (nv : Nat) (s : Slots) (p : Nat) (op : Op)
   obtain ⟨hPv', hPv⟩ := PI_cons_self s p hvD
   have hrel := relAt_s1_self s p op hpL v relv hx hnodup
   have hidx := idxOf_of_getElem? hnodup hx
-  have htailV : ∀ k, p ≤ k → k < s.length → occV s v k = false := by
-    intro k hk _; unfold occV; rw [htail k hk]
+  have htailV : ∀ k, p ≤ k → k < s.length → occVAt s v k = false := by
+    intro k hk _; unfold occVAt; rw [htail k hk]
   have hlast : lastRel s v = prevRel s v p := by
     unfold lastRel prevRel; rw [prevOcc_eq_last htailV (by omega)]
   -- the tuple read from the tables
@@ -113,12 +113,12 @@ theorem installVar_step (nv : Nat) (s : Slots) (p : Nat) (op : Op)
       congr 1
       obtain ⟨_, hnd_q, _, _⟩ := hwf q oq hsq
       have key : ∀ w, w ∈ oq.vars →
-          (if w = v ∧ prevOcc (occV s v) p = some q then some (⟨p, relv⟩ : PRel) else nextRelI s p op D w q)
+          (if w = v ∧ prevOcc (occVAt s v) p = some q then some (⟨p, relv⟩ : PRel) else nextRelI s p op D w q)
             = nextRelI s p op (v :: D) w q := by
         intro w hw
         by_cases hwv : w = v
         · subst hwv
-          have hq_occ : occV s w q = true := occV_of_mem hsq hw
+          have hq_occ : occVAt s w q = true := occV_of_mem hsq hw
           unfold nextRelI
           rw [hPv', hPv, nextOcc_insert hq_occ hq hpL]
           split <;> simp_all
@@ -126,14 +126,14 @@ theorem installVar_step (nv : Nat) (s : Slots) (p : Nat) (op : Op)
           unfold nextRelI
           rw [PI_cons_ne s p hwv]
       have goal2 : oq.vars.map (fun w => nextRelI s p op (v :: D) w q)
-          = oq.vars.map (fun w => if w = v ∧ prevOcc (occV s v) p = some q then some (⟨p, relv⟩ : PRel)
+          = oq.vars.map (fun w => if w = v ∧ prevOcc (occVAt s v) p = some q then some (⟨p, relv⟩ : PRel)
               else nextRelI s p op D w q) := by
         apply List.map_congr_left
         intro w hw
         exact (key w hw).symm
       rw [goal2]
       unfold prevRel
-      cases hpo : prevOcc (occV s v) p with
+      cases hpo : prevOcc (occVAt s v) p with
       | none =>
         simp only [Option.map_none]
         apply List.map_congr_left
@@ -165,7 +165,7 @@ theorem installVar_step (nv : Nat) (s : Slots) (p : Nat) (op : Op)
     apply List.ext_getElem?
     intro w
     unfold prevRel
-    cases hpo : prevOcc (occV s v) p with
+    cases hpo : prevOcc (occVAt s v) p with
     | some q' =>
       -- the variable already has ops: its (stale) end is unchanged
       simp only [Option.map_some, List.getElem?_map]
@@ -188,7 +188,7 @@ theorem installVar_step (nv : Nat) (s : Slots) (p : Nat) (op : Op)
       · subst hwv
         simp only [if_true, hvn, List.getElem?_range hvn, Option.map_some, List.mem_cons, true_or]
         congr 1
-        have hf : firstOcc (occV s v) s.length = none := by
+        have hf : firstOcc (occVAt s v) s.length = none := by
           rw [firstOcc_none_iff]
           intro j hj
           by_cases hjp : j < p
@@ -245,7 +245,7 @@ theorem staleV_zip (a b : Option PRel) (h : a.isSome = b.isSome) :
   cases a <;> cases b <;> simp_all [staleV, zipOpt]
 
 theorem precanon_g (nv : Nat) (s : Slots) :
-    (precanon nv s).g = (canonG none s).setPEnds ((firstOcc (occ s) s.length).map (fun x => (x, x))) := by
+    (precanon nv s).g = (canonG none s).setPEnds ((firstOcc (occAt s) s.length).map (fun x => (x, x))) := by
   unfold precanon canonEnds
   rw [staleP_zip _ _ first_some_iff_last_some]
   simp only [FastOps.g, FastOps.setPEnds, canonG, canon]
@@ -258,24 +258,24 @@ def LR (nv : Nat) (s : Slots) : List (Option Nat) := (List.range nv).map (fun w 
 theorem installStep_precanon (nv : Nat) (s : Slots) (p : Nat) (op : Op)
     (hpL : p < s.length) (htail : ∀ k, p ≤ k → slotAt s k = none)
     (hwf : WF nv none s) (hok : OpOK nv none op) :
-    FastOps.installStep (precanon nv s, lastOcc (occ s) s.length, LV nv s, LR nv s) (p, op)
-      = (precanon nv (s.set p (some op)), lastOcc (occ (s.set p (some op))) (s.set p (some op)).length,
+    FastOps.installStep (precanon nv s, lastOcc (occAt s) s.length, LV nv s, LR nv s) (p, op)
+      = (precanon nv (s.set p (some op)), lastOcc (occAt (s.set p (some op))) (s.set p (some op)).length,
           LV nv (s.set p (some op)), LR nv (s.set p (some op))) := by
   have hsp : slotAt s p = none := htail p (Nat.le_refl p)
   obtain ⟨hne, hnodup, hlt, hbond⟩ := hok
   have hok' : OpOK nv none op := ⟨hne, hnodup, hlt, hbond⟩
   have hP' := occ_set s p (some op) hpL
   simp only [Option.isSome_some] at hP'
-  have hocc : occ s p = false := occ_false_of_slotAt hsp
-  have htailO : ∀ k, p ≤ k → k < s.length → occ s k = false := by
+  have hocc : occAt s p = false := occ_false_of_slotAt hsp
+  have htailO : ∀ k, p ≤ k → k < s.length → occAt s k = false := by
     intro k hk _; exact occ_false_of_slotAt (htail k hk)
-  have htailV : ∀ w k, p ≤ k → k < s.length → occV s w k = false := by
-    intro w k hk _; unfold occV; rw [htail k hk]
-  have hprevlast : prevOcc (occ s) p = lastOcc (occ s) s.length := prevOcc_eq_last htailO (by omega)
-  have hnextnone : nextOcc (occ s) s.length p = none := nextOcc_none_of_tail htailO
+  have htailV : ∀ w k, p ≤ k → k < s.length → occVAt s w k = false := by
+    intro w k hk _; unfold occVAt; rw [htail k hk]
+  have hprevlast : prevOcc (occAt s) p = lastOcc (occAt s) s.length := prevOcc_eq_last htailO (by omega)
+  have hnextnone : nextOcc (occAt s) s.length p = none := nextOcc_none_of_tail htailO
   have hlastV : ∀ w, lastRel s w = prevRel s w p := by
     intro w; unfold lastRel prevRel; rw [prevOcc_eq_last (htailV w) (by omega)]
-  have hnextV : ∀ w, nextOcc (occV s w) s.length p = none := fun w => nextOcc_none_of_tail (htailV w)
+  have hnextV : ∀ w, nextOcc (occVAt s w) s.length p = none := fun w => nextOcc_none_of_tail (htailV w)
   have hlt_p : ∀ q oq, slotAt s q = some oq → q < p := by
     intro q oq hq
     by_cases h : q < p
@@ -284,13 +284,13 @@ theorem installStep_precanon (nv : Nat) (s : Slots) (p : Nat) (op : Op)
   -- the inner loop
   unfold FastOps.installStep
   simp only []
-  generalize hc1 : FastOps.installLinkLast (precanon nv s) (lastOcc (occ s) s.length) p = c1
+  generalize hc1 : FastOps.installLinkLast (precanon nv s) (lastOcc (occAt s) s.length) p = c1
   have hc1n : ∀ q, c1.nfv q = (precanon nv s).nfv q := by
-    intro q; rw [← hc1]; unfold FastOps.installLinkLast; cases lastOcc (occ s) s.length <;> simp
+    intro q; rw [← hc1]; unfold FastOps.installLinkLast; cases lastOcc (occAt s) s.length <;> simp
   have hc1p : ∀ q, c1.pfv q = (precanon nv s).pfv q := by
-    intro q; rw [← hc1]; unfold FastOps.installLinkLast; cases lastOcc (occ s) s.length <;> simp
+    intro q; rw [← hc1]; unfold FastOps.installLinkLast; cases lastOcc (occAt s) s.length <;> simp
   have hc1v : c1.varEnds = (precanon nv s).varEnds := by
-    rw [← hc1]; unfold FastOps.installLinkLast; cases lastOcc (occ s) s.length <;> simp
+    rw [← hc1]; unfold FastOps.installLinkLast; cases lastOcc (occAt s) s.length <;> simp
   have hpn : ∀ q, (precanon nv s).nfv q = (canon nv none s).nfv q := fun q => rfl
   have hpp : ∀ q, (precanon nv s).pfv q = (canon nv none s).pfv q := fun q => rfl
   have hbase : IL nv s p op [] (c1, LV nv s, LR nv s, []) := by
@@ -331,10 +331,10 @@ theorem installStep_precanon (nv : Nat) (s : Slots) (p : Nat) (op : Op)
     simp only [FastOps.g_length] at this
     rw [this, ← hc1]
     unfold FastOps.installLinkLast
-    cases lastOcc (occ s) s.length <;> simp [precanon]
-  have hlastp : lastOcc (occ (s.set p (some op))) (s.set p (some op)).length = some p := by
+    cases lastOcc (occAt s) s.length <;> simp [precanon]
+  have hlastp : lastOcc (occAt (s.set p (some op))) (s.set p (some op)).length = some p := by
     rw [List.length_set, hP', lastOcc_insert hpL, hnextnone]; rfl
-  have hoccV' : ∀ w, occV (s.set p (some op)) w = PI s p op.vars w := occV_s1 s p op hsp hpL
+  have hoccV' : ∀ w, occVAt (s.set p (some op)) w = PI s p op.vars w := occV_s1 s p op hsp hpL
   -- tables
   have hlv : lv2 = LV nv (s.set p (some op)) := by
     have := hfold.hlv
@@ -353,7 +353,7 @@ theorem installStep_precanon (nv : Nat) (s : Slots) (p : Nat) (op : Op)
     · have hh : hasVar (some op) w = false := by simpa [hasVar] using hw
       simp only [List.mem_reverse, hw, if_false, hh]
       rw [upd_self_eq (htailV w p (Nat.le_refl p) hpL)]
-      have := relcongr s p op hsp w (lastOcc (occV s w) s.length) (fun y hy => (lastOcc_mem hy).2)
+      have := relcongr s p op hsp w (lastOcc (occVAt s w) s.length) (fun y hy => (lastOcc_mem hy).2)
       unfold s1 at this
       rw [← this]
   have hlr : lr2 = LR nv (s.set p (some op)) := by
@@ -373,13 +373,13 @@ theorem installStep_precanon (nv : Nat) (s : Slots) (p : Nat) (op : Op)
     · have hh : hasVar (some op) w = false := by simpa [hasVar] using hw
       simp only [List.mem_reverse, hw, if_false, hh]
       rw [upd_self_eq (htailV w p (Nat.le_refl p) hpL)]
-      have := relcongr s p op hsp w (lastOcc (occV s w) s.length) (fun y hy => (lastOcc_mem hy).2)
+      have := relcongr s p op hsp w (lastOcc (occVAt s w) s.length) (fun y hy => (lastOcc_mem hy).2)
       unfold s1 at this
       rw [← this]
   rw [hlastp, hlv, hlr]
   congr 1
   -- the container
-  generalize hnode : ({ op := op, previousP := lastOcc (occ s) s.length, nextP := none, previousForVars := pr2, nextForVars := List.replicate op.vars.length none } : Node) = nodeNew
+  generalize hnode : ({ op := op, previousP := lastOcc (occAt s) s.length, nextP := none, previousForVars := pr2, nextForVars := List.replicate op.vars.length none } : Node) = nodeNew
   have hng : nodeNew.g = canonNodeG (s.set p (some op)) p op := by
     rw [← hnode]
     simp only [Node.g, canonNodeG, List.length_set, hP', prevOcc_upd_self, nextOcc_upd_self, hprevlast,
@@ -390,21 +390,21 @@ theorem installStep_precanon (nv : Nat) (s : Slots) (p : Nat) (op : Op)
   · -- global view
     simp only [FastOps.setN_g, FastOps.setOp_g, hfg]
     rw [← hc1]
-    have hlink : (FastOps.installLinkLast (precanon nv s) (lastOcc (occ s) s.length) p).g
-        = FastOps.installLinkLast (precanon nv s).g (lastOcc (occ s) s.length) p := by
+    have hlink : (FastOps.installLinkLast (precanon nv s) (lastOcc (occAt s) s.length) p).g
+        = FastOps.installLinkLast (precanon nv s).g (lastOcc (occAt s) s.length) p := by
       unfold FastOps.installLinkLast
-      cases lastOcc (occ s) s.length <;> simp
+      cases lastOcc (occAt s) s.length <;> simp
     rw [hlink, precanon_g, precanon_g]
     generalize hX : FastOps.installLinkLast
-      ((canonG none s).setPEnds ((firstOcc (occ s) s.length).map (fun x => (x, x))))
-      (lastOcc (occ s) s.length) p = X
+      ((canonG none s).setPEnds ((firstOcc (occAt s) s.length).map (fun x => (x, x))))
+      (lastOcc (occAt s) s.length) p = X
     have hXlen : X.ops.length = s.length := by
-      rw [← hX]; unfold FastOps.installLinkLast; cases lastOcc (occ s) s.length <;> simp
+      rw [← hX]; unfold FastOps.installLinkLast; cases lastOcc (occAt s) s.length <;> simp
     have hXget : ∀ q, X.getNode q = ((canonG none s).getNode q).map (fun nd =>
-        if lastOcc (occ s) s.length = some q then { nd with nextP := some p } else nd) := by
+        if lastOcc (occAt s) s.length = some q then { nd with nextP := some p } else nd) := by
       intro q
       rw [← hX]; unfold FastOps.installLinkLast
-      cases hlo : lastOcc (occ s) s.length with
+      cases hlo : lastOcc (occAt s) s.length with
       | none => simp
       | some lp =>
         simp only [FastOps.getNode_setNextP, FastOps.getNode_setPEnds]
@@ -412,21 +412,21 @@ theorem installStep_precanon (nv : Nat) (s : Slots) (p : Nat) (op : Op)
         | none => rfl
         | some nd => by_cases e : lp = q <;> simp [e]
     have hXn : X.n = countOps s := by
-      rw [← hX]; unfold FastOps.installLinkLast; cases lastOcc (occ s) s.length <;> simp
-    have hXpe : X.pEnds = match lastOcc (occ s) s.length with
-        | some _ => (firstOcc (occ s) s.length).map (fun x => (x, x))
+      rw [← hX]; unfold FastOps.installLinkLast; cases lastOcc (occAt s) s.length <;> simp
+    have hXpe : X.pEnds = match lastOcc (occAt s) s.length with
+        | some _ => (firstOcc (occAt s) s.length).map (fun x => (x, x))
         | none => some (p, p) := by
-      rw [← hX]; unfold FastOps.installLinkLast; cases lastOcc (occ s) s.length <;> simp
+      rw [← hX]; unfold FastOps.installLinkLast; cases lastOcc (occAt s) s.length <;> simp
     have hXbc : X.bondCounters = none := by
-      rw [← hX]; unfold FastOps.installLinkLast; cases lastOcc (occ s) s.length <;> simp [canonG, canon, FastOps.g]
+      rw [← hX]; unfold FastOps.installLinkLast; cases lastOcc (occAt s) s.length <;> simp [canonG, canon, FastOps.g]
     have hXve : X.varEnds = [] := by
-      rw [← hX]; unfold FastOps.installLinkLast; cases lastOcc (occ s) s.length <;> simp
+      rw [← hX]; unfold FastOps.installLinkLast; cases lastOcc (occAt s) s.length <;> simp
     have hc2n : c2.n = countOps s := by
       have := congrArg FastOps.n hfg
       simp only [FastOps.g_n] at this
       rw [this, ← hc1]
       unfold FastOps.installLinkLast
-      cases lastOcc (occ s) s.length <;> simp [precanon, canon]
+      cases lastOcc (occAt s) s.length <;> simp [precanon, canon]
     apply FastOps.ext'
     · simp [hXlen]
     · intro q _
@@ -444,19 +444,19 @@ theorem installStep_precanon (nv : Nat) (s : Slots) (p : Nat) (op : Op)
           have hqp' : q ≠ p := fun e => hqp e.symm
           simp only [Option.map_some, canonNodeG, List.length_set, hP']
           rw [prevOcc_insert hq hqp' hqL, nextOcc_insert hq hqp' hpL, hnextnone, hprevlast]
-          by_cases e : lastOcc (occ s) s.length = some q <;> simp [e]
+          by_cases e : lastOcc (occAt s) s.length = some q <;> simp [e]
     · have := countOps_set s p (some op) hpL
       simp [hocc] at this
       simp [hc2n]; omega
     · simp only [FastOps.pEnds_setN, FastOps.pEnds_setOp, hXpe, FastOps.pEnds_setPEnds']
       rw [List.length_set, hP', firstOcc_insert hpL, hprevlast]
-      cases hlo : lastOcc (occ s) s.length with
+      cases hlo : lastOcc (occAt s) s.length with
       | none => simp
       | some lp =>
-        obtain ⟨f, hf⟩ : ∃ f, firstOcc (occ s) s.length = some f := by
-          have := @first_some_iff_last_some (occ s) s.length
+        obtain ⟨f, hf⟩ : ∃ f, firstOcc (occAt s) s.length = some f := by
+          have := @first_some_iff_last_some (occAt s) s.length
           rw [hlo] at this
-          cases h : firstOcc (occ s) s.length with
+          cases h : firstOcc (occAt s) s.length with
           | none => rw [h] at this; cases this
           | some f => exact ⟨f, rfl⟩
         simp [hf]
@@ -546,9 +546,9 @@ theorem installStep_precanon (nv : Nat) (s : Slots) (p : Nat) (op : Op)
     · have hh : hasVar (some op) w = true := by simpa [hasVar] using hw
       simp only [List.mem_reverse, hw, if_true, hh]
       rw [firstOcc_insert hpL]
-      cases hpo : prevOcc (occV s w) p with
+      cases hpo : prevOcc (occVAt s w) p with
       | none =>
-        have hf : firstOcc (occV s w) s.length = none := by
+        have hf : firstOcc (occVAt s w) s.length = none := by
           rw [firstOcc_none_iff]
           intro j hj
           by_cases hjp : j < p
@@ -568,7 +568,7 @@ theorem installStep_precanon (nv : Nat) (s : Slots) (p : Nat) (op : Op)
       have e := staleV_zip (firstRel s w) (lastRel s w) (firstRel_isSome s w)
       unfold firstRel at e
       rw [e]
-      have := relcongr s p op hsp w (firstOcc (occV s w) s.length) (fun y hy => (firstOcc_mem hy).2)
+      have := relcongr s p op hsp w (firstOcc (occVAt s w) s.length) (fun y hy => (firstOcc_mem hy).2)
       unfold s1 at this
       rw [← this]
 
@@ -587,8 +587,8 @@ theorem installFold_precanon (nv : Nat) :
     ∀ (l : List (Nat × Op)) (s : Slots), WF nv none s →
       (l.map (·.1)).Pairwise (· < ·) → (∀ x ∈ l, x.1 < s.length ∧ OpOK nv none x.2) →
       (∀ x ∈ l, ∀ k, x.1 ≤ k → slotAt s k = none) →
-      l.foldl FastOps.installStep (precanon nv s, lastOcc (occ s) s.length, LV nv s, LR nv s)
-        = (precanon nv (installA s l), lastOcc (occ (installA s l)) (installA s l).length,
+      l.foldl FastOps.installStep (precanon nv s, lastOcc (occAt s) s.length, LV nv s, LR nv s)
+        = (precanon nv (installA s l), lastOcc (occAt (installA s l)) (installA s l).length,
             LV nv (installA s l), LR nv (installA s l)) ∧ WF nv none (installA s l) := by
   intro l
   induction l with
@@ -624,10 +624,10 @@ theorem precanon_empty (nv L : Nat) :
     precanon nv (List.replicate L none)
       = { ops := List.replicate L none, n := 0, pEnds := none, varEnds := List.replicate nv none,
           bondCounters := none } := by
-  have hocc : occ (List.replicate L none) = fun _ => false := by
-    funext q; unfold occ; rw [slotAt_replicate_none]; rfl
-  have hoccV : ∀ v, occV (List.replicate L none) v = fun _ => false := by
-    intro v; funext q; unfold occV; rw [slotAt_replicate_none]
+  have hocc : occAt (List.replicate L none) = fun _ => false := by
+    funext q; unfold occAt; rw [slotAt_replicate_none]; rfl
+  have hoccV : ∀ v, occVAt (List.replicate L none) v = fun _ => false := by
+    intro v; funext q; unfold occVAt; rw [slotAt_replicate_none]
   have hf : ∀ (P : Nat → Bool) (n : Nat), P = (fun _ => false) → firstOcc P n = none := by
     intro P n hP; subst hP; rw [firstOcc_none_iff]; intros; rfl
   have hl : ∀ (P : Nat → Bool) (n : Nat), P = (fun _ => false) → lastOcc P n = none := by
@@ -669,15 +669,15 @@ theorem clearForInstall_new (nv L : Nat) :
 
 /-- the two final fix-ups turn the stale ends into the canonical ones -/
 theorem fixEndTails_precanon (nv : Nat) (s : Slots) :
-    fixEndTails (precanon nv s) (lastOcc (occ s) s.length) (LV nv s) (LR nv s) = canon nv none s := by
+    fixEndTails (precanon nv s) (lastOcc (occAt s) s.length) (LV nv s) (LR nv s) = canon nv none s := by
   apply eq_of_g_v
   · apply ext'
     · simp [fixEndTails, precanon]
     · intro q _; rfl
     · rfl
     · simp only [fixEndTails, g_pEnds, precanon, pEnds_setPEnds', canon, canonEnds]
-      have := @first_some_iff_last_some (occ s) s.length
-      cases h1 : firstOcc (occ s) s.length <;> cases h2 : lastOcc (occ s) s.length <;>
+      have := @first_some_iff_last_some (occAt s) s.length
+      cases h1 : firstOcc (occAt s) s.length <;> cases h2 : lastOcc (occAt s) s.length <;>
         simp [h1, h2, zipOpt, staleP] at this ⊢
     · rfl
     · rfl
@@ -724,13 +724,13 @@ theorem newFromOps_canon (nv : Nat) (l : List (Nat × Op)) (hne : l ≠ [])
   have hnv : (FastOps.new nv none).varEnds.length = nv := by simp [FastOps.new]
   have hwf0 : WF nv none (List.replicate L none) := by
     intro q op hq; rw [slotAt_replicate_none] at hq; cases hq
-  have hlast0 : lastOcc (occ (List.replicate L none)) (List.replicate L (none : Option Op)).length = none := by
-    rw [lastOcc_none_iff]; intro k _; unfold occ; rw [slotAt_replicate_none]; rfl
+  have hlast0 : lastOcc (occAt (List.replicate L none)) (List.replicate L (none : Option Op)).length = none := by
+    rw [lastOcc_none_iff]; intro k _; unfold occAt; rw [slotAt_replicate_none]; rfl
   have hlastV0 : ∀ w, lastRel (List.replicate L none) w = none := by
     intro w
     unfold lastRel
-    have : lastOcc (occV (List.replicate L none) w) (List.replicate L (none : Option Op)).length = none := by
-      rw [lastOcc_none_iff]; intro k _; unfold occV; rw [slotAt_replicate_none]
+    have : lastOcc (occVAt (List.replicate L none) w) (List.replicate L (none : Option Op)).length = none := by
+      rw [lastOcc_none_iff]; intro k _; unfold occVAt; rw [slotAt_replicate_none]
     rw [this]; rfl
   have hLV0 : LV nv (List.replicate L none) = List.replicate nv none := by
     unfold LV; simp only [hlastV0, Option.map_none]; exact (replicate_eq_range_map nv none).symm
